@@ -1460,6 +1460,13 @@ func (s *Netceptor) handleRoutingUpdate(ri *routingUpdate, recvConn string) {
 		// Our peer is still trying to initialize
 		return
 	}
+	for _, cost := range ri.Connections {
+		if !(cost > 0.0) {
+			// Connection costs are positive by construction (AddBackend refuses anything else). A
+			// zero or negative cost would let the shortest-path computation run for ever.
+			return
+		}
+	}
 	if ri.NodeID == s.nodeID {
 		if ri.UpdateEpoch == s.epoch {
 			return
